@@ -820,6 +820,16 @@ def safeByte (b : UInt8) : Bool :=
 /-- A non-empty literal of safe bytes. -/
 def safeLit (v : Bytes) : Bool := !v.isEmpty && v.all safeByte
 
+/-- A literal inside a group: safe bytes and single dots (a dot is followed by a non-dot byte of
+    the same literal). -/
+def innerOk : Bytes → Bool
+  | [] => true
+  | [c] => safeByte c
+  | c :: d :: r => (safeByte c || decide (c = cDot ∧ d ≠ cDot)) && innerOk (d :: r)
+
+/-- A non-empty literal of safe bytes and single interior/leading dots. -/
+def innerLit (v : Bytes) : Bool := !v.isEmpty && innerOk v
+
 /-- The elems of a sequence node as written `{a..b}` / `{a..b..c}`: single safe literals. -/
 def seqShape (elems : List Word) : Bool :=
   elems.all fun e =>
@@ -836,7 +846,7 @@ mutual
     adjacent; a list group has at least two alternatives (possibly empty ones); a sequence group
     is `{x..y}` or `{x..y..z}` with endpoints that pass the validity test. -/
 def canonPart : Part → Bool
-  | .lit v => safeLit v
+  | .lit v => innerLit v
   | .brace seq elems =>
     if seq then seqValid elems && seqShape elems
     else decide (2 ≤ elems.length) && canonElems elems
